@@ -120,7 +120,11 @@ def streams(rng, tier):
             seen.add(s)
             rt_ops.append(f"rt {name} {s}")
             if i % 3 == 0:
+                # unknown fields of a struct read directly are skipped whatever they hold; behind serde's Content buffer (flatten, internally /
+                # adjacently tagged, untagged) they go through deserialize_any, which only takes the bridge's data model: no raw extras there
+                raw_ok = not any(x in ALL[name] for x in ("fl{", "it(", "at(", "un{"))
                 for m, o in MUST.items():
+                    o = dict(o, raw_extras=raw_ok)
                     h = T.spec_enc(v, dict(o, rng=rng)).hex()
                     de_ops.append(f"de {name} {h} #m={m} #v={s}")
                 for m, o in FREE.items():
